@@ -646,6 +646,9 @@ def main(ctx: Ctx) -> int:
         # a user element list that declares a generic metal `M` (a symbol the DEFAULT pseudo-element list also holds), no pseudo-element list
         {"reactions": [(["M", "H+"], ["M+", "H"]), (["M+", "e-"], ["M"]), (["H", "H"], ["H2"]), (["H+", "e-"], ["H"])], "required": [],
          "elements": ["e", "H", "He", "M"], "origin": "random"},
+        # species declared as required although they also react (a user listing everything the cooling functions need)
+        {"reactions": [(["He+", "e-"], ["He"]), (["He", "H+"], ["He+", "H"]), (["H+", "e-"], ["H"]), (["H", "H"], ["H2"])], "required": ["He++", "He+", "e-", "H2"],
+         "origin": "random"},
         # a UMIST file: one or two reactants, up to FOUR products (every product column used)
         {"reactions": [(["H2", "O"], ["OH", "H"]), (["CH3OH", "H+"], ["CH", "OH", "H2", "H+"]), (["CH3OH", "He+"], ["CH2", "OH", "H", "He+"]), (["OH", "H"], ["O", "H2"])],
          "required": [], "via_files": ["umist"], "origin": "random"},
